@@ -1,7 +1,7 @@
 """C04 — retries respect every budget, spare non-idempotent requests, and terminate.
 
 Correspondence: every (pool kind, Retry configuration, method, per-attempt outcome script) is run
-through the real `HTTPConnectionPool.urlopen` / `ProxyManager.urlopen` over the in-memory network
+through the real `HTTPConnectionPool.urlopen` / `ProxyManager.urlopen` (http:// and https:// proxy) over the in-memory network
 (`harness/net.py`, `time.sleep` of `urllib3.util.retry` recorded) and through `U3.Retry.runAttempts`
 (driver `retry`); compared are the outcomes consumed, the number of requests on the wire, every
 sleep, and the final result (response status / MaxRetryError + reason class / re-raised error
@@ -30,6 +30,13 @@ READ = ("rt", "rr", "re", "rg")
 # "sr" ConnectionResetError / "sp" BrokenPipeError (both swallowed by _make_request, the response is then read from
 # the dead connection: reset resp. EOF).  Ground truth: the request may have reached the server -> read error
 SEND = ("st", "sr", "sp")
+# the TLS handshake with an HTTPS proxy (modes "sfwd" / "stun": forwarding / tunnelling through https://proxy:3129)
+# fails after the TCP connection was accepted: "ht" socket.timeout, "hr" ConnectionResetError in do_handshake.  Nothing
+# of the request has been written.  Ground truth: the property's "other error" (neither a connect error - the socket
+# is open - nor a read error - the request cannot have reached the server)
+HANDSHAKE = ("ht", "hr")
+HTTPS_PROXY_MODES = ("sfwd", "stun")
+NO_SOCKET_REUSE = CONNECT + HANDSHAKE        # outcomes that are only consulted when the attempt opens a socket
 RETRY_AFTER_CODES = (413, 429, 503)          # the property text, not the source table
 KNOWN_SIG = "proxy-read-reset-relabelled-proxyerror"
 
@@ -41,6 +48,7 @@ ALPHABET = [["ct"], ["cr"], ["st"], ["sr"], ["sp"], ["rt"], ["rr"], ["re"], ["rg
             ["s", 413, 2], ["s", 418, None], ["s", 200, 5]]
 SMALL_ALPHABET = [["ct"], ["rt"], ["rr"], ["re"], ["rg"], ["o"], ["s", 200, None], ["s", 500, None], ["s", 503, 3]]
 SEND_ALPHABET = [["st"], ["sr"], ["sp"]]
+HANDSHAKE_ALPHABET = [["ht"], ["hr"]]
 # replies with `Location:` a path on the same pool ("l"); 200+Location and 301 without Location are no redirects
 LOCATED = [["l", 301, None], ["l", 302, None], ["l", 302, None], ["l", 303, None], ["l", 303, None], ["l", 307, None],
            ["l", 308, None], ["l", 302, 4], ["l", 303, 0], ["l", 200, None], ["l", 500, None], ["s", 301, None],
@@ -78,7 +86,7 @@ def category(o):
         return "connect"
     if o[0] in READ or o[0] in SEND:
         return "read"
-    if o[0] == "o":
+    if o[0] == "o" or o[0] in HANDSHAKE:
         return "other"
     return "status"
 
@@ -175,17 +183,21 @@ def retry_tokens(r):
 class C04(Prop):
     id = "C04"
     model = "retry"
-    rule = ("(pool kind in {direct, forwarding proxy, tunnelling proxy (CONNECT + fake TLS)}) x Retry(total, connect, "
+    rule = ("(pool kind in {direct, forwarding proxy, tunnelling proxy (CONNECT + fake TLS), forwarding / tunnelling "
+            "through an HTTPS proxy (fake TLS with the proxy; TLS-in-TLS)}) x Retry(total, connect, "
             "read, status, other over {None, False, -1..3}, allowed_methods in {default, None, [], [POST], [GET, POST]}, "
             "status_forcelist in {None, [500], [500, 503], [418]}, raise_on_status, respect_retry_after_header, "
             "backoff_factor in {0, 0.5, 1, 4, -0.5}, backoff_max in {0, 1, 3, 120}) or the legacy retries= forms "
             "{None, False, 0..3} x methods {GET, POST, PUT, get, DELETE, PATCH} x per-attempt outcome scripts of "
             "length <= 5 over {connect timeout, connect refused, send timeout / reset / broken pipe once the request "
-            "has gone out, read timeout, reset, EOF, garbage status line, "
+            "has gone out, (HTTPS proxy only) TLS handshake with the proxy times out / is reset, read timeout, reset, EOF, "
+            "garbage status line, "
             "ssl error while reading (other), 200, 204, 500, 500+Retry-After, 503, 503+Retry-After 7/0, 429+RA, 413+RA, "
             "418, 200+RA}, each followed by a final 200; with and without keep-alive. quick: exhaustive scripts of "
             "length <= 3 over a 9-letter alphabet x 3 pool kinds x {GET, POST} x 3 configurations, every script of "
-            "length <= 2 over that alphabet + the 3 send failures containing a send failure + random; thorough: "
+            "length <= 2 over that alphabet + the 3 send failures containing a send failure, every script of length <= 2 "
+            "over that alphabet + the 2 proxy-handshake failures x 2 HTTPS-proxy kinds x 4 configurations + random; "
+            "thorough: "
             "more configurations + 20x random. Compared with the Lean model: outcomes consumed, requests on the wire, "
             "sleeps, final result, then increment/is_exhausted/get_backoff_time/is_retry/sleep on the bare object "
             "field by field. Redirect family: replies 301/302/303/307/308 (+ 200, 500) with Location: a path on "
@@ -253,6 +265,18 @@ class C04(Prop):
                     for sc in sscripts:
                         yield {"mode": mode, "retry": cfg, "method": method, "script": sc, "keepalive": False,
                                "body": method == "POST" and len(sc) % 2 == 1, "kind": "exh-send"}
+        # ---- HTTPS-proxy family: every script of length <= 2 over the small alphabet + {ht, hr}, through an HTTPS
+        # proxy (forwarding / tunnelling); one more configuration whose `other` budget is smaller than `read`
+        hgrid = grid[:3] + [
+            {"total": 5, "connect": None, "read": 2, "status": None, "other": 0, "allowed": "default",
+             "forcelist": [500], "ros": True, "rra": True, "bf": 0, "bmax": 120}]
+        hscripts = [list(t) for n in (0, 1, 2) for t in itertools.product(SMALL_ALPHABET + HANDSHAKE_ALPHABET, repeat=n)]
+        for mode in HTTPS_PROXY_MODES:
+            for cfg in hgrid:
+                for method in ("GET", "POST"):
+                    for sc in hscripts:
+                        yield {"mode": mode, "retry": cfg, "method": method, "script": sc, "keepalive": False,
+                               "kind": "exh-https-proxy"}
         scripts = [[]]
         for n in (1, 2, 3):
             scripts += [list(t) for t in itertools.product(SMALL_ALPHABET, repeat=n)]
@@ -291,14 +315,15 @@ class C04(Prop):
             keep = rng.random() < 0.25
             with_loc = rng.random() < 0.5
             sc = []
+            mode = rng.choice(["direct", "fwd", "tun", "direct", "fwd", "tun", "sfwd", "stun"])
+            letters = ALPHABET + HANDSHAKE_ALPHABET if mode in HTTPS_PROXY_MODES else ALPHABET
             for _ in range(n):
-                pick = lambda: rng.choice(LOCATED) if (with_loc and rng.random() < 0.45) else rng.choice(ALPHABET)
+                pick = lambda: rng.choice(LOCATED) if (with_loc and rng.random() < 0.45) else rng.choice(letters)
                 o = pick()
                 # with keep-alive the connection of a completed response is reused: no connect phase
-                while keep and sc and sc[-1][0] in REPLY and o[0] in CONNECT:
+                while keep and sc and sc[-1][0] in REPLY and o[0] in NO_SOCKET_REUSE:
                     o = pick()
                 sc.append(o)
-            mode = rng.choice(["direct", "fwd", "tun"])
             redirect = rng.random() < 0.5 if with_loc else rng.random() < 0.8
             located = any(o[0] == "l" for o in sc)
             via = "pool"
@@ -375,9 +400,9 @@ class C04(Prop):
         body = b"payload" if case.get("body") else None
         script = [list(o) for o in case["script"]] + [["s", 200, None]]
         state = {"i": 0, "att": [], "entries": [], "sleeps": [], "cur": None, "unconsulted": False, "wire": [],
-                 "send_fired": set()}
+                 "send_fired": set(), "hs_fired": set()}
         net = Net()
-        base = "http://origin" if mode == "fwd" else ""        # a forwarding proxy needs absolute-form targets
+        base = "http://origin" if mode in ("fwd", "sfwd") else ""    # a forwarding proxy needs absolute-form targets
 
         def connect_hook(sock, host, port):
             o = state["cur"]
@@ -415,6 +440,20 @@ class C04(Prop):
 
         net.send_hook = send_hook
 
+        def tls_hook(sock, info):
+            """the handshake with the HTTPS proxy itself (not the TLS-in-TLS one with the origin behind it)"""
+            o, i = state["cur"], state["i"]
+            if mode in HTTPS_PROXY_MODES and not info["tls_in_tls"] and sock.peer.addr == ("proxy", 3129):
+                if o[0] in HANDSHAKE:
+                    state["hs_fired"].add(i)
+                if o[0] == "ht":
+                    raise TimeoutError("_ssl.c:1000: The handshake operation timed out")
+                if o[0] == "hr":
+                    raise ConnectionResetError(errno.ECONNRESET, "Connection reset by peer")
+            return None
+
+        net.tls_hook = tls_hook
+
         def handler(peer, req):
             if req.method == "CONNECT":
                 peer.tunnel_to = ("origin", 443)
@@ -424,7 +463,7 @@ class C04(Prop):
             i = state["i"]
             state["wire"].append((i, req))
             k = o[0]
-            if k in CONNECT:
+            if k in NO_SOCKET_REUSE:
                 state["unconsulted"] = True          # a connect fault was scripted but no socket was opened
                 k = "re"
             if k in ("rt", "st"):
@@ -454,7 +493,7 @@ class C04(Prop):
                     peer.close()
 
         srv = Server(handler)
-        for key in (("origin", 80), ("origin", 443), ("proxy", 3128)):
+        for key in (("origin", 80), ("origin", 443), ("proxy", 3128), ("proxy", 3129)):
             net.servers[key] = srv
         saved_time = ur.time
         ur.time = FakeTime(state)
@@ -465,8 +504,12 @@ class C04(Prop):
                     top, url = pool, "/"
                 else:
                     # a prepared context: creating the default one loads the system trust store (40 ms) per handshake
-                    top = ProxyManager("http://proxy:3128", maxsize=1, ssl_context=self.tls_context())
-                    url = "http://origin/" if mode == "fwd" else "https://origin/"
+                    if mode in HTTPS_PROXY_MODES:
+                        top = ProxyManager("https://proxy:3129", maxsize=1, ssl_context=self.tls_context(),
+                                           proxy_ssl_context=self.tls_context())
+                    else:
+                        top = ProxyManager("http://proxy:3128", maxsize=1, ssl_context=self.tls_context())
+                    url = "http://origin/" if mode in ("fwd", "sfwd") else "https://origin/"
                     pool = top.connection_from_url(url)
                 inner = pool.urlopen
                 sig = inspect.signature(inner)
@@ -489,10 +532,10 @@ class C04(Prop):
                         r = top.urlopen(method, url, body=body, retries=retries, redirect=redirect,
                                         preload_content=preload)
                     else:
-                        purl = "/" if mode != "fwd" else url
+                        purl = "/" if mode not in ("fwd", "sfwd") else url
                         # the forwarding pool is the proxy's: like PoolManager.urlopen, no same-host assertion
                         r = pool.urlopen(method, purl, body=body, retries=retries, redirect=redirect,
-                                         assert_same_host=(mode != "fwd"), preload_content=preload)
+                                         assert_same_host=(mode not in ("fwd", "sfwd")), preload_content=preload)
                     res = ("resp", r.status, None)
                     # the caller now reads what it was given
                     try:
@@ -523,7 +566,7 @@ class C04(Prop):
             ur.time = saved_time
         return {"att": state["att"], "entries": state["entries"], "wire": wire, "sleeps": state["sleeps"],
                 "res": res, "returned": returned, "unconsulted": state["unconsulted"],
-                "send_fired": state["send_fired"]}
+                "send_fired": state["send_fired"], "hs_fired": state["hs_fired"]}
 
     @staticmethod
     def target_id(url):
@@ -566,6 +609,8 @@ class C04(Prop):
         att, wire, sleeps, (rk, rv, robj) = obs["att"], obs["wire"], obs["sleeps"], obs["res"]
         if {i for i, o in enumerate(att) if o[0] in SEND} != obs["send_fired"]:
             raise AssertionError("a scripted send failure did not fire (or fired in another attempt)")
+        if {i for i, o in enumerate(att) if o[0] in HANDSHAKE} != obs["hs_fired"]:
+            raise AssertionError("a scripted proxy handshake failure did not fire (or fired in another attempt)")
         entries, returned = obs["entries"], obs["returned"]
         script = case["script"] + [["s", 200, None]]
         res.bump("mode:" + mode)
@@ -629,6 +674,10 @@ class C04(Prop):
                     e = ProtocolError("Connection aborted.", None)
                 # what the pool would hand over behind a proxy is decided by the run above; here the object is
                 # fed the direct-pool classes, plus a ProxyError-wrapped variant to exercise the unwrapping
+                if k == "ht":
+                    e = ProxyError("Unable to connect to proxy", ReadTimeoutError(None, "/", "read timed out"))
+                if k == "hr":
+                    e = ProxyError("Unable to connect to proxy", ConnectionResetError(104, "reset"))
                 if proxied and k in CONNECT:
                     e = ProxyError("Unable to connect to proxy", e)
                 if proxied and k in ("rr", "re"):
@@ -701,7 +750,7 @@ class C04(Prop):
         for i in range(n - 1):
             exp.append(("GET", None) if (followed[i] and att[i][1] == 303) else exp[-1])
         # wire: every attempt that got past connect puts exactly one request on the wire
-        expect_wire = [i for i, o in enumerate(att) if o[0] not in CONNECT]
+        expect_wire = [i for i, o in enumerate(att) if o[0] not in NO_SOCKET_REUSE]
         if [i for i, _ in wire] != expect_wire:
             fail("wire-mismatch", f"requests on the wire for attempts {[i for i, _ in wire]}, expected {expect_wire}")
         else:
